@@ -23,6 +23,8 @@ package main
 //                than the new JSON, the input itself, read-only, ...) or cannot be made
 //   cli-stdin-kinds   stdin as a pipe / a regular file (`< file`) / a socket / /dev/null / an
 //                empty file / a closed descriptor: same answer as the pipe and the named file
+//   cli-degenerate-progfile  -f FILE with an empty / blank / comment-only program file against the same
+//                text inline, with 0-2 file arguments, -r and -o
 //   cli-hostile-args  selectors, program texts, file names and flag values containing
 //                commas, brackets, quotes, backslashes, blanks, dashes, '='; empty
 //                arguments; flag look-alikes after the flags ended
@@ -1643,6 +1645,107 @@ func init() {
 				return
 			}
 			c14SelectorOverlap(r, tierN(tier, 240, 5000), emit)
+		},
+	})
+}
+
+// ---------------------------------------------------------------------------------------
+// cli-degenerate-progfile: `-f FILE` behaves as the same text given inline ALSO when the text
+// is degenerate: empty, one newline, blanks, a comment, a shebang line. The decision "the
+// program comes from the file" must depend on -f being given, never on what the file holds.
+// ---------------------------------------------------------------------------------------
+
+var c14DegenerateTexts = []struct{ text, what string }{
+	{"", "empty"}, {"", "empty"}, {"\n", "one newline"}, {"\n\n\n", "newlines"}, {" ", "one blank"}, {"\t \t", "blanks and tabs"}, {" \n \n", "blank lines"}, {"\r\n", "CR LF"},
+	{"#c", "a comment without newline"}, {"# a comment\n", "a comment line"}, {"  # c é\n\n", "indented comment, blank line"}, {"#", "a lone #"}, {"#!/usr/bin/env jqawk -f\n", "a shebang line"},
+	{"# one\n# two\n", "two comment lines"}, {";", "a lone semicolon (not a program)"}, {"1", "the pattern 1"}, {"$.page", "a bodyless pattern"}, {"{ }", "an empty rule"}, {"BEGIN { }", "an empty BEGIN"},
+}
+
+func c14DegenerateProgFile(r *rand.Rand, tier string, emit func(Case)) {
+	data := []byte(`{"result":[{"name":"a"},{"name":"b"}],"page":1}`)
+	second := []byte("[1, 2]\n")
+	stdinDoc := []byte(`{"result": "from stdin", "page": 9}`)
+	rounds := tierN(tier, 1, 4)
+	g := 0
+	for round := 0; round < rounds; round++ {
+		for _, t := range c14DegenerateTexts {
+			for nfiles := 0; nfiles <= 2; nfiles++ {
+				for _, sel := range []string{"", "$.result", "$.page", "$"} {
+					for _, oMode := range []string{"", "-", "out.json"} {
+						if tier != "thorough" && (t.text != "" && !chance(r, 0.5)) {
+							continue
+						}
+						var names []string
+						var disk []CliFile
+						switch nfiles {
+						case 1:
+							names = []string{pick(r, []string{"data.json", "data.json", "d", "1", "x.y"})}
+							disk = []CliFile{{Name: names[0], Data: data}}
+						case 2:
+							names = []string{"data.json", "more.json"}
+							disk = []CliFile{{Name: "data.json", Data: data}, {Name: "more.json", Data: second}}
+						}
+						var flags []string
+						if sel != "" {
+							flags = append(flags, c14Flag(r, "r", sel)...)
+						}
+						ofile := ""
+						if oMode != "" {
+							flags = append(flags, c14Flag(r, "o", oMode)...)
+							if oMode != "-" {
+								ofile = oMode
+							}
+						}
+						// stdin: nothing (/dev/null), or a document that differs from the files
+						hasStdin := nfiles == 0 || chance(r, 0.5)
+						var stdin []byte
+						if hasStdin {
+							stdin = stdinDoc
+						}
+						progName := pick(r, []string{"prog.jqawk", "empty.jqawk", "p", "data.jqawk"})
+						fflag := c14Flag(r, "f", progName)
+						var fargv []string
+						if chance(r, 0.5) {
+							fargv = append(append(append([]string{}, flags...), fflag...), names...)
+						} else {
+							fargv = append(append(append([]string{}, fflag...), flags...), names...)
+						}
+						inline := append(append(append([]string{}, flags...), t.text), names...)
+						if strings.HasPrefix(t.text, "-") {
+							continue
+						}
+						grp := fmt.Sprintf("degenerate-%d", g)
+						g++
+						meta := func(form string, argv []string) map[string]string {
+							return metaProg(t.text, "program text", fmt.Sprintf("%q (%s)", t.text, t.what), "form", form, "argv", strings.Join(argv, " ␣ "), "files", strings.Join(names, " "), "stdin", fmt.Sprint(hasStdin),
+								"row", t.what, "col", fmt.Sprintf("%d files", nfiles))
+						}
+						gf := []string{"exit", "out", "stderr", "ofile", "ofexists"}
+						emit(Case{ID: grp + "/inline", Req: CliReq(inline, stdin, hasStdin, disk, ofile), Fields: c14CliFields, Group: grp, GroupFields: gf, Meta: meta("inline (reference of the group)", inline), Oracle: c14Basic, NonTrivial: c14NT})
+						fdisk := append(append([]CliFile{}, disk...), CliFile{Name: progName, Data: []byte(t.text)})
+						emit(Case{ID: grp + "/file", Req: CliReq(fargv, stdin, hasStdin, fdisk, ofile), Fields: c14CliFields, Group: grp, GroupFields: gf, Meta: meta("-f FILE", fargv), Oracle: c14Basic, NonTrivial: c14NT})
+						// no program argument at all is the empty program on stdin
+						if t.text == "" && nfiles == 0 && round == 0 {
+							emit(Case{ID: grp + "/noargs", Req: CliReq(flags, stdin, hasStdin, nil, ofile), Fields: c14CliFields, Group: grp, GroupFields: gf, Meta: meta("no program argument", flags), Oracle: c14Basic, NonTrivial: c14NT})
+						}
+					}
+				}
+			}
+		}
+	}
+}
+
+func init() {
+	register(Family{
+		Name: "cli-degenerate-progfile", Prop: "C14",
+		Rule: "the real binary with a DEGENERATE program text -- empty, one newline, newlines, a blank, blanks and tabs, blank lines, CR LF, a comment with and without newline, a lone #, a shebang line, two comment lines -- and a few minimal ones (`1`, `$.page`, `{ }`, `BEGIN { }`, `;`) given inline and as -f FILE (-f FILE / -f=FILE / --f FILE, before or after the other flags, four file names), with 0 / 1 / 2 positional file arguments (also files named `1`, `d`, `x.y`), stdin /dev/null or a document that differs from the files, -r absent / $.result / $.page / $, -o absent / - / out.json; one Group per scenario: exit, stdout, stderr and the -o file of the -f run equal the inline run's (and, without files, the run with no program argument at all); both compared with the model",
+		Gen: func(r *rand.Rand, tier string, emit func(Case)) {
+			if os.Getenv("JQAWK_BIN") == "" {
+				emit(Case{ID: "no-binary", Req: "cli - - - -", ImplOnly: true, Oracle: c14Basic,
+					Meta: map[string]string{"problem": "env JQAWK_BIN is not set; the C14 families run the real binary"}})
+				return
+			}
+			c14DegenerateProgFile(r, tier, emit)
 		},
 	})
 }
